@@ -82,12 +82,15 @@ type cand struct {
 	xlo, xhi int64
 	// local_deletion
 	deadline int64   // first expiry second given in this incarnation (0 = none)
-	later    []int64 // expiry seconds given later in this incarnation
-	stale    []int64 // expiry seconds given to earlier incarnations of the key name
+	later    int64 // earliest expiry second given later in this incarnation (0 = none)
+	stale    int64 // earliest expiry second given to earlier incarnations of the key name (0 = none)
 	// evidence flags (do not take part in comparisons)
 	recreatedOver bool // created over a dead or cleared predecessor that had content
 	pred          bool // (absent key) a predecessor with content was cleared/emptied
 	clearedExp    int64
+	// born: log timestamp that created this incarnation; predBorn: the same of
+	// the cleared/emptied predecessor (collections, wait_compact)
+	born, predBorn int64
 	// taint: this candidate is reachable only if the implementation behaved as
 	// the named known finding describes at some earlier command
 	taint string
@@ -102,8 +105,6 @@ func (c *cand) clone() *cand {
 			n.m[k] = v
 		}
 	}
-	n.later = append([]int64(nil), c.later...)
-	n.stale = append([]int64(nil), c.stale...)
 	return &n
 }
 
@@ -113,7 +114,7 @@ func (c *cand) key() string {
 	for _, k := range sortedMapKeys(c.m) {
 		fmt.Fprintf(&sb, "%q=%q,", k, c.m[k])
 	}
-	fmt.Fprintf(&sb, "|%d|%d|%d|%d|%v|%v", c.expSec, c.xlo, c.xhi, c.deadline, c.later, c.stale)
+	fmt.Fprintf(&sb, "|%d|%d|%d|%d|%v|%v|%d|%d", c.expSec, c.xlo, c.xhi, c.deadline, c.later, c.stale, c.born, c.predBorn)
 	return sb.String()
 }
 
@@ -126,6 +127,14 @@ func sortedMapKeys(m map[string]string) []string {
 	return ks
 }
 
+// minNZ: the smaller of two seconds where 0 means "none".
+func minNZ(a, b int64) int64 {
+	if a == 0 || (b != 0 && b < a) {
+		return b
+	}
+	return a
+}
+
 func (c *cand) hasContent() bool { return c.s != "" || len(c.l) > 0 || len(c.m) > 0 }
 
 // wipe makes the key absent. Under local_deletion the expiry times given so
@@ -133,19 +142,20 @@ func (c *cand) hasContent() bool { return c.s != "" || len(c.l) > 0 || len(c.m) 
 func (c *cand) wipe(ld bool) {
 	st := c.stale
 	if ld {
-		if c.deadline != 0 {
-			st = append(st, c.deadline)
-		}
-		st = append(st, c.later...)
+		st = minNZ(st, minNZ(c.deadline, c.later))
 	}
-	*c = cand{stale: st, pred: c.pred || c.hasContent(), taint: c.taint}
+	*c = cand{stale: st, pred: c.pred || c.hasContent(), taint: c.taint, predBorn: c.born}
 }
 
 // create starts a new incarnation with empty content (the caller fills it).
 func (c *cand) create() {
 	had := (c.present && c.hasContent()) || c.pred
 	st := c.stale
-	*c = cand{present: true, stale: st, recreatedOver: had, taint: c.taint}
+	pb := c.predBorn
+	if c.present {
+		pb = c.born
+	}
+	*c = cand{present: true, stale: st, recreatedOver: had, taint: c.taint, predBorn: pb}
 }
 
 // ---- expected replies ----------------------------------------------------------
@@ -222,6 +232,13 @@ type out struct {
 
 type kstate struct {
 	cands []*cand
+	// hclearRisk: expiry seconds a live hash had when HCLEAR removed it (known
+	// finding "hclear-local-clock-replay-diverges": HCLEAR decides by the
+	// node's clock instead of the log timestamp whether there is anything to
+	// clear; replayed after that second it does nothing and the rest of the
+	// log then works on the uncleared hash)
+	hclearRisk []int64
+	suspect    string
 	// evidence
 	aliveBefore map[int64]bool // expiry second -> observed alive strictly before
 	deadAfter   map[int64]bool // expiry second -> observed dead strictly after
@@ -246,7 +263,6 @@ func NewModel(ld bool) *Model {
 
 func (m *Model) ks(typ byte, key string) *kstate {
 	id := string(typ) + "|" + key
-	m.cur = id
 	k := m.keys[id]
 	if k == nil {
 		k = &kstate{cands: []*cand{{}}, aliveBefore: map[int64]bool{}, deadAfter: map[int64]bool{}}
@@ -260,9 +276,10 @@ type Result struct {
 	OK       bool
 	Via      string // known finding that explains the reply ("" if as specified)
 	Expected string
+	Retire   bool // the key's state is no longer known: stop using the name
 }
 
-const maxCands = 24
+const maxCands = 96
 
 // Apply checks the actual reply of op evaluated at time t (ns) and advances
 // the model.
@@ -271,8 +288,12 @@ func (m *Model) Apply(op Op, t int64, actual string) Result {
 		return m.applyMulti(op, t, actual)
 	}
 	k := m.ks(op.Typ, op.Keys[0])
+	m.cur = string(op.Typ) + "|" + op.Keys[0]
 	var outs []out
 	for _, c := range k.cands {
+		if op.Name == "hclear" && !m.LD && c.present && c.expSec != 0 && t < c.xhi {
+			k.hclearRisk = append(k.hclearRisk, c.expSec)
+		}
 		outs = append(outs, m.step(c, op, t, true)...)
 	}
 	var keep []out
@@ -282,6 +303,9 @@ func (m *Model) Apply(op Op, t int64, actual string) Result {
 		}
 	}
 	if len(keep) == 0 {
+		if k.suspect != "" {
+			return Result{OK: true, Via: k.suspect, Retire: true}
+		}
 		return Result{OK: false, Expected: expectedOf(outs)}
 	}
 	return Result{OK: true, Via: m.commit(k, op, t, keep)}
@@ -404,6 +428,79 @@ func sortedKS(m map[string]*kstate) []string {
 	return ks
 }
 
+// OnRestart is told that the node replayed its log with the clock at t.
+func (m *Model) OnRestart(t int64) (suspects int) {
+	for _, id := range sortedKS(m.keys) {
+		k := m.keys[id]
+		for _, e := range k.hclearRisk {
+			if t >= e*sec {
+				k.suspect = "hclear-local-clock-replay-diverges"
+			}
+		}
+		if k.suspect != "" {
+			suspects++
+		}
+	}
+	return
+}
+
+// CheckScan checks the key listing of one type (SCAN / ADVSCAN over the
+// table, wait_compact only): every key that is certainly alive at t must be
+// listed, a key that is certainly dead or absent must not be (a dead key that
+// is still listed is the known finding "scan-lists-expired-keys"). ignore
+// holds retired names.
+func (m *Model) CheckScan(typ byte, t int64, listed []string, ignore map[string]bool) Result {
+	in := map[string]bool{}
+	for _, n := range listed {
+		in[n] = true
+	}
+	via := ""
+	var bad []string
+	seen := map[string]bool{}
+	for _, id := range sortedKS(m.keys) {
+		if id[0] != typ {
+			continue
+		}
+		name := id[2+2:] // strip "x|" and the table prefix "t:"
+		seen[name] = true
+		if m.keys[id].suspect != "" {
+			continue
+		}
+		must, may, ghost := true, false, false
+		for _, c := range m.keys[id].cands {
+			switch {
+			case !c.present:
+				must = false
+			case c.expSec == 0 || t < c.xlo:
+				may = true
+			case t >= c.xhi:
+				must = false
+				ghost = true
+			default:
+				must = false
+				may = true
+			}
+		}
+		switch {
+		case must && !in[name]:
+			bad = append(bad, "live key "+name+" is not listed")
+		case in[name] && !may && ghost:
+			via = "scan-lists-expired-keys"
+		case in[name] && !may:
+			bad = append(bad, "deleted key "+name+" is listed")
+		}
+	}
+	for _, n := range listed {
+		if !seen[n] && !ignore["t:"+n] {
+			bad = append(bad, "unknown key "+n+" is listed")
+		}
+	}
+	if len(bad) > 0 {
+		return Result{OK: false, Expected: strings.Join(bad, "; ")}
+	}
+	return Result{OK: true, Via: via}
+}
+
 // Retire forgets a key (the schedule stops using its name).
 func (m *Model) Retire(id string) { delete(m.keys, id); delete(m.LDTouched, id) }
 
@@ -428,7 +525,7 @@ func (m *Model) Outstanding() []Expiry {
 				if c.deadline != 0 {
 					es = append(es, Expiry{ID: id, Sec: c.deadline, Xlo: c.deadline * sec, Xhi: c.deadline * sec})
 				}
-				for _, l := range c.later {
+				if l := c.later; l != 0 {
 					es = append(es, Expiry{ID: id, Sec: l, Xlo: l * sec, Xhi: l * sec})
 				}
 			} else if c.expSec != 0 {
@@ -528,14 +625,7 @@ func (m *Model) views(c0 *cand, t int64, findings bool) []view {
 			}
 		}
 		if findings && !(c0.deadline != 0 && t >= c0.deadline*sec) {
-			due := func(l []int64) bool {
-				for _, e := range l {
-					if t >= e*sec {
-						return true
-					}
-				}
-				return false
-			}
+			due := func(e int64) bool { return e != 0 && t >= e*sec }
 			if due(c0.later) || due(c0.stale) {
 				m.LDTouched[m.cur] = true
 			}
@@ -585,7 +675,7 @@ func (m *Model) give(c *cand, t int64, n int64) {
 		if c.deadline == 0 {
 			c.deadline = e
 		} else {
-			c.later = append(c.later, e)
+			c.later = minNZ(c.later, e)
 		}
 		return
 	}
@@ -711,12 +801,24 @@ func (m *Model) stepView(v view, op Op, t int64, findings bool) []out {
 
 // mk makes the key exist for a creating/modifying write: a dead or absent
 // key starts a new, empty incarnation without expiry.
-func mk(c *cand, alive bool) (note string) {
+func (m *Model) mk(c *cand, alive bool, t int64) (note string) {
 	if alive {
 		return ""
 	}
 	ghost := c.present
 	c.create()
+	c.born = t
+	if !m.LD && c.predBorn == t && m.cur[0] != 'k' {
+		// known finding "same-ns-recreate-reuses-generation": the generation of
+		// a collection is the log timestamp of the write that created it; a
+		// collection created, cleared (or expired by EXPIRE 0) and created
+		// again within one and the same nanosecond timestamp gets the
+		// generation of its predecessor, whose members are only hidden, not
+		// deleted. From here on nothing is known about the key.
+		if k := m.keys[m.cur]; k != nil {
+			k.suspect = "same-ns-recreate-reuses-generation"
+		}
+	}
 	if ghost {
 		return "rmw_on_expired"
 	}
@@ -740,6 +842,29 @@ func (m *Model) stepKV(c *cand, alive bool, op Op, t int64, findings bool) []out
 			return one(c, wI(0))
 		}
 		return one(c, wI(int64(len(c.s))))
+	case "getrange":
+		v := ""
+		if alive {
+			v = c.s
+		}
+		st, _ := atoi(a[0])
+		en, _ := atoi(a[1])
+		n := int64(len(v))
+		st, en = normIdx(st, n), normIdx(en, n)
+		if st < 0 {
+			st = 0
+		}
+		if en < 0 {
+			en = 0
+		}
+		if en >= n {
+			en = n - 1
+		}
+		if st > en || n == 0 {
+			// Redis answers the empty string, the guide is silent
+			return one(c, wS(rNil, rBulk("")))
+		}
+		return one(c, wS(rBulk(v[st:en+1])))
 	case "set":
 		mode := ""
 		var ex int64
@@ -789,7 +914,7 @@ func (m *Model) stepKV(c *cand, alive bool, op Op, t int64, findings bool) []out
 		if alive {
 			return one(c, wI(0))
 		}
-		note := mk(c, alive)
+		note := m.mk(c, alive, t)
 		c.s = a[0]
 		return []out{{c: c, w: wI(1), note: note}}
 	case "append", "setrange":
@@ -820,7 +945,7 @@ func (m *Model) stepKV(c *cand, alive bool, op Op, t int64, findings bool) []out
 			f.s = apply(old)
 			outs = append(outs, out{c: f, w: wI(int64(len(f.s))), via: "kv-append-setrange-on-expired-builds-on-old-value"})
 		}
-		note := mk(c, alive)
+		note := m.mk(c, alive, t)
 		c.s = apply(c.s)
 		outs = append(outs, out{c: c, w: wI(int64(len(c.s))), note: note})
 		return outs
@@ -837,7 +962,7 @@ func (m *Model) stepKV(c *cand, alive bool, op Op, t int64, findings bool) []out
 			}
 			cur = v
 		}
-		note := mk(c, alive)
+		note := m.mk(c, alive, t)
 		c.s = strconv.FormatInt(cur+by, 10)
 		return []out{{c: c, w: wI(cur + by), note: note}}
 	case "exists1":
@@ -901,6 +1026,14 @@ func (m *Model) stepHash(c *cand, alive bool, op Op, t int64) []out {
 			}
 		}
 		return []out{{c: c, w: wS(rBulks(items)), note: rdNote}}
+	case "hscan":
+		var items []string
+		if alive {
+			for _, f := range sortedMapKeys(c.m) {
+				items = append(items, f, c.m[f])
+			}
+		}
+		return []out{{c: c, w: wS(rArr([]string{rBulk(""), rBulks(items)})), note: rdNote}}
 	case "hlen":
 		if !alive {
 			return one(c, wI(0))
@@ -929,14 +1062,14 @@ func (m *Model) stepHash(c *cand, alive bool, op Op, t int64) []out {
 		if op.Name == "hsetnx" && had {
 			return one(c, wI(0))
 		}
-		note := mk(c, alive)
+		note := m.mk(c, alive, t)
 		if c.m == nil {
 			c.m = map[string]string{}
 		}
 		c.m[a[0]] = a[1]
 		return []out{{c: c, w: w01(!had), note: note}}
 	case "hmset":
-		note := mk(c, alive)
+		note := m.mk(c, alive, t)
 		if c.m == nil {
 			c.m = map[string]string{}
 		}
@@ -954,7 +1087,7 @@ func (m *Model) stepHash(c *cand, alive bool, op Op, t int64) []out {
 			}
 			cur = n
 		}
-		note := mk(c, alive)
+		note := m.mk(c, alive, t)
 		if c.m == nil {
 			c.m = map[string]string{}
 		}
@@ -1042,7 +1175,7 @@ func (m *Model) stepList(c *cand, alive bool, op Op, t int64) []out {
 		}
 		return one(c, wS(rBulk(l[i])))
 	case "lpush", "rpush":
-		note := mk(c, alive)
+		note := m.mk(c, alive, t)
 		for _, v := range a {
 			if op.Name == "lpush" {
 				c.l = append([]string{v}, c.l...)
@@ -1116,6 +1249,20 @@ func (m *Model) stepSet(c *cand, alive bool, op Op, t int64) []out {
 			items = sortedMapKeys(c.m)
 		}
 		return []out{{c: c, w: wS(rBulks(items)), note: rdNote}}
+	case "sscan", "srandmember":
+		var items []string
+		if alive {
+			items = sortedMapKeys(c.m)
+		}
+		if op.Name == "srandmember" {
+			// documented: returned in order
+			n, _ := atoi(a[0])
+			if int64(len(items)) > n {
+				items = items[:n]
+			}
+			return []out{{c: c, w: wS(rBulks(items)), note: rdNote}}
+		}
+		return []out{{c: c, w: wS(rArr([]string{rBulk(""), rBulks(items)})), note: rdNote}}
 	case "scard":
 		if !alive {
 			return one(c, wI(0))
@@ -1132,7 +1279,7 @@ func (m *Model) stepSet(c *cand, alive bool, op Op, t int64) []out {
 			}
 			seen[x] = true
 		}
-		note := mk(c, alive)
+		note := m.mk(c, alive, t)
 		if c.m == nil {
 			c.m = map[string]string{}
 		}
@@ -1220,6 +1367,32 @@ func (m *Model) stepZSet(c *cand, alive bool, op Op, t int64) []out {
 			}
 		}
 		return []out{{c: c, w: wS(rBulks(items)), note: rdNote}}
+	case "zrangebyscore", "zrevrange": // -inf +inf | 0 -1
+		var items []string
+		if alive {
+			for _, e := range zsorted(c) {
+				items = append(items, e.m)
+			}
+		}
+		if op.Name == "zrevrange" {
+			for i, j := 0, len(items)-1; i < j; i, j = i+1, j-1 {
+				items[i], items[j] = items[j], items[i]
+			}
+		}
+		return []out{{c: c, w: wS(rBulks(items)), note: rdNote}}
+	case "zscan":
+		var items []string
+		if alive {
+			for _, k := range sortedMapKeys(c.m) {
+				items = append(items, k, c.m[k])
+			}
+		}
+		return []out{{c: c, w: wS(rArr([]string{rBulk(""), rBulks(items)})), note: rdNote}}
+	case "zcount": // -inf +inf
+		if !alive {
+			return one(c, wI(0))
+		}
+		return []out{{c: c, w: wI(int64(len(c.m))), note: rdNote}}
 	case "zcard":
 		if !alive {
 			return one(c, wI(0))
@@ -1251,7 +1424,7 @@ func (m *Model) stepZSet(c *cand, alive bool, op Op, t int64) []out {
 			}
 			seen[a[i+1]] = true
 		}
-		note := mk(c, alive)
+		note := m.mk(c, alive, t)
 		if c.m == nil {
 			c.m = map[string]string{}
 		}
@@ -1267,7 +1440,7 @@ func (m *Model) stepZSet(c *cand, alive bool, op Op, t int64) []out {
 				cur, _ = atoi(v)
 			}
 		}
-		note := mk(c, alive)
+		note := m.mk(c, alive, t)
 		if c.m == nil {
 			c.m = map[string]string{}
 		}
@@ -1314,7 +1487,7 @@ func (m *Model) stepBitmap(c *cand, alive bool, op Op, t int64) []out {
 		}
 		on := a[1] == "1"
 		// (clearing a bit of an absent bitmap creates an all-zero bitmap, as in Redis)
-		note := mk(c, alive)
+		note := m.mk(c, alive, t)
 		if c.m == nil {
 			c.m = map[string]string{}
 		}
@@ -1348,6 +1521,7 @@ func (m *Model) applyMulti(op Op, t int64, actual string) Result {
 		if op.Name == "plset" {
 			so.Args = []string{op.Args[i]}
 		}
+		m.cur = "k|" + op.Keys[i]
 		for _, c := range kss[i].cands {
 			per[i] = append(per[i], m.step(c, so, t, true)...)
 		}
